@@ -370,6 +370,11 @@ func (ca *CertificateAuthority) upload(ctx context.Context, manifest *cpb.GCECer
 	if err != nil {
 		return nil, err
 	}
+	if entry == nil && exists && !output.AllowOverwrite(ctx) {
+		// Keeping going past an object that may not be replaced must not record that object for a
+		// new key version: the manifest entry depends on this certificate having been written.
+		return nil, status.Errorf(codes.AlreadyExists, "object %q exists, overwrite not enabled", name)
+	}
 	// The key is fresh, so add it to the manifest.
 	if entry == nil {
 		entries := append(manifest.Entries, &cpb.GCECertificateManifest_Entry{
